@@ -432,8 +432,12 @@ func (g *Gen) opCancel() {
 		}
 	}
 	if g.rng.Intn(5) == 0 {
-		// a chain id that is not a chain of the bridge but resembles one (prefix, other case)
-		chain = []string{chain[:len(chain)-1], chain[:3], strings.ToUpper(chain), chain + "2"}[g.rng.Intn(4)]
+		// a chain id that is not a chain of the bridge but resembles one (prefix, other case), from the transfer's own sender
+		if len(pool) > 0 {
+			s := pool[g.rng.Intn(len(pool))]
+			id, sender = s.Id, g.env.toHexAcc(s.Sender)
+		}
+		chain = []string{chain[:len(chain)-1], chain[:3], chain[:len(chain)-1], strings.ToUpper(chain), chain + "2"}[g.rng.Intn(5)]
 	}
 	g.do(fmt.Sprintf("cancel %s %s %d", sender, chain, id))
 }
@@ -1987,19 +1991,35 @@ func (g *Gen) runStress(nops int) {
 			if len(toks) == 0 {
 				continue
 			}
-			if len(g.env.Batches(g.env.ctx, chain)) == 0 {
-				t := toks[r.Intn(len(toks))]
-				for j := 0; j < 3; j++ {
-					g.do(fmt.Sprintf("send %s %s %s %s %d %d %s", g.pick(g.accounts), chain, g.pick(g.recips), t.denom, 1000000000000+r.Intn(1000000), r.Intn(5)*1000000000, g.nextTag()))
-				}
-				g.do("reqbatch " + chain + " " + t.denom)
+			// hostile events may have left the chain's event stream waiting at a nonce nobody could vote for: continue from
+			// what the hub has observed
+			if lo := g.env.k.GetLastObservedEventNonce(g.env.ctx, types.ChainID(chain)); g.nextEvt[chain] != lo+1 {
+				g.nextEvt[chain] = lo + 1
+				g.stats["stress:event-stream-resynchronised"]++
 			}
-			if bs := g.env.Batches(g.env.ctx, chain); len(bs) > 0 {
-				b := bs[r.Intn(len(bs))]
-				n := g.nextEvt[chain]
-				g.nextEvt[chain]++
-				g.voteAll(chain, fmt.Sprintf("bex %s %d %d %d 0x%s %d %s", b.ExternalTokenId, n, b.BatchNonce, g.eventHeight(chain), g.nextTag(), r.Intn(1000), g.pick(g.recips)))
-				g.stats["stress:claim-burst-with-execution"]++
+			{
+				// a batch stored in this very block (its key is still in the block cache's unsorted part). The generator
+				// must not read the batch range itself here: an iterator over the block's cache moves the dirty keys of
+				// its range into the sorted part, which is the state a node that only executes transactions never is in
+				t := toks[r.Intn(len(toks))]
+				g.do(fmt.Sprintf("fund %s %s 100000000000000000000", g.accounts[0], t.denom))
+				for j := 0; j < 3; j++ {
+					g.do(fmt.Sprintf("send %s %s %s %s %d %d %s", g.accounts[0], chain, g.pick(g.recips), t.denom, 2000000000000000000+int64(r.Intn(1000000)), 3000000000000000+int64(r.Intn(5))*1000000000, g.nextTag()))
+				}
+				out := g.do("reqbatch " + chain + " " + t.denom)
+				var bn uint64
+				if _, err := fmt.Sscanf(out, "ok nonce=%d", &bn); err == nil && bn > 0 {
+					n := g.nextEvt[chain]
+					g.nextEvt[chain]++
+					g.voteAll(chain, fmt.Sprintf("bex %s %d %d %d 0x%s %d %s", t.ext, n, bn, g.eventHeight(chain), g.nextTag(), r.Intn(1000), g.pick(g.recips)))
+					g.stats["stress:claim-burst-with-execution"]++
+				} else if bs := g.env.Batches(g.env.ctx, chain); len(bs) > 0 {
+					b := bs[r.Intn(len(bs))]
+					n := g.nextEvt[chain]
+					g.nextEvt[chain]++
+					g.voteAll(chain, fmt.Sprintf("bex %s %d %d %d 0x%s %d %s", b.ExternalTokenId, n, b.BatchNonce, g.eventHeight(chain), g.nextTag(), r.Intn(1000), g.pick(g.recips)))
+					g.stats["stress:claim-burst-with-execution-of-an-older-batch"]++
+				}
 			}
 			for j, m := 0, 66+r.Intn(35); j < m; j++ {
 				t := toks[r.Intn(len(toks))]
